@@ -349,6 +349,9 @@ func c08Run(c *core.Ctx) {
 			run(pre+gen.RenderDefault(toks), len(toks)*4+1, nil, "")
 		}
 		gen.Layouts(toks, kk, gaps, func(text string, devs []gen.Dev) {
+			if c.Tick() {
+				return
+			}
 			run(text, len(toks)*4+len(devs), nil, "")
 			if c.Count0()%37 == 0 && len(devs) > 0 {
 				c.Sample(text)
